@@ -82,6 +82,25 @@ def gen_binary_cases(rng, sc, thorough):
         for t in G.INT_TYPES:
             for c in ops:
                 cases.append('E k %s c %s %x' % (t, ft, c))
+    # eval()'s EXPRCAST of an integer constant to float and double: carriers plus values on and next to the rounding
+    # boundaries of binary32 (half an ulp = 2^(k-24)) and binary64 (2^(k-53)); `(float)i` must be rounded once, not through
+    # double (fixed in /repo ee45c99: 2^60 + 2^36 + 1 was folded to 2^60)
+    for lt in ('long', 'ulong', 'llong', 'ullong', 'int', 'uint'):
+        bits = 32 if lt in ('int', 'uint') else 64
+        tie = []
+        for k in range(25, bits):
+            for half in (k - 24, k - 53):
+                if half < 0:
+                    continue
+                base = (1 << k) + (1 << half)
+                tie += [base - 1, base, base + 1, base + (1 << (half + 1)), base + (1 << (half + 1)) + 1, base + (1 << (half + 1)) - 1]
+        tie = [v for v in tie if v < (1 << bits)]
+        tie = tie + [(-v) & G.M64 for v in tie if lt[0] != 'u' and v < (1 << (bits - 1))]
+        tie = [v for v in tie if lt[0] == 'u' or v < (1 << (bits - 1)) or v >= G.M64 + 1 - (1 << (bits - 1))]
+        pick = tie if thorough else rng.sample(tie, min(len(tie), 160))
+        for ft in ('float', 'double'):
+            for c in sorted(set(car[lt] + pick)):
+                cases.append('E k %s c %s %x' % (ft, lt, c))
     return cases
 
 
@@ -355,6 +374,17 @@ FIXED_CLI = [
     ('int a = -0x100000000u > 0; long b = 0x7fffffffffffffffu / -1; long c = 040000000000u % -3; long d = -0x100000000u >> 60;\n'
      'int e = -0b100000000000000000000000000000000U > 0; int f = -4294967296u > 0; long g = -0x100000000 >> 60; int h = -0x100000000 > 0;\n',
      [('a', 4, 1), ('b', 8, 0), ('c', 8, 4294967296), ('d', 8, 15), ('e', 4, 1), ('f', 4, 1), ('g', 8, -1), ('h', 4, 0)]),
+    # offsetof with index designators after a non-zero offset and with nested indices: offsets accumulate
+    ('struct S { int pad; struct { int x; long y; } arr[4]; char m[3][5]; struct { struct { short v[6]; } in[3]; } n[2]; union { int i; short w[8]; } s; };\n'
+     'long a = __builtin_offsetof(struct S, arr[2].y), b = __builtin_offsetof(struct S, m[1][2]), c = __builtin_offsetof(struct S, n[1].in[2].v[3]),\n'
+     '     d = __builtin_offsetof(struct S, s.w[4]), e = __builtin_offsetof(struct S, arr[0].x), f = __builtin_offsetof(struct S, arr[3]);\n'
+     'char g[__builtin_offsetof(struct S, m[2][4])]; long h = sizeof g; enum { K = __builtin_offsetof(struct S, n[1]) }; long i = K;\n',
+     [('a', 8, 48), ('b', 8, 79), ('c', 8, 154), ('d', 8, 168), ('e', 8, 8), ('f', 8, 56), ('h', 8, 86), ('i', 8, 124)]),
+    # integer -> float constant conversions round once (a detour through double rounds 2^60 + 2^36 + 1 down to 2^60)
+    ('int a = (float)1152921573326323713LL == 0x1.000002p60f; int b = (float)1152921573326323713ULL > 0x1p60f; int c = (float)-1152921573326323713LL == -0x1.000002p60f;\n'
+     'int d = (float)16777217 == 16777216.0f; int e = (double)9007199254740993LL == 9007199254740992.0; int f = (float)18446742974197923841ULL == 0x1.fffffep63f;\n'
+     'int h = (float)1152921573326323713LL == (float)(double)1152921573326323713LL;\n',
+     [('a', 4, 1), ('b', 4, 1), ('c', 4, 1), ('d', 4, 1), ('e', 4, 1), ('f', 4, 1), ('h', 4, 0)]),
     # (source, list of (name, size, value)) : regression corpus for the fixes already made in /repo, plus corner cases
     ('_Bool a = (_Bool)077; _Bool b = (_Bool)256; _Bool c = (_Bool)0.5; _Bool d = (_Bool)0.0; _Bool e = (_Bool)-0.0;\n',
      [('a', 1, 1), ('b', 1, 1), ('c', 1, 1), ('d', 1, 0), ('e', 1, 0)]),
